@@ -7,6 +7,7 @@ import itertools
 import random
 
 import batchrun
+import mtindep
 import build
 import optrun
 import verdict
@@ -17,7 +18,9 @@ LEVEL = "exploration"
 RULE = ("all format strings over {'{', '}', 'a', ' '} up to length 7 (quick) / 9 (thorough) x argument counts "
         "0..k+1 x rotating argument pool {'', 'x', '{}', '{', '}{', '{}{}', '}'} x {operator%, args(...)}; a seeded "
         "random layer with typed arguments (int, negative, long long, char, double, const char*); raised exception "
-        "messages with 1-6 mixed arguments and a format object; distinct_nontrivial = distinct (format, arguments, "
+        "messages with 1-6 mixed arguments and a format object; a scale layer (8 ... 1000 placeholders, arguments "
+        "and literals of 15 ... 70000 bytes); a concurrent phase (lib/mtindep.py: 2-16 threads formatting and raising "
+        "with thread-private objects under ThreadSanitizer, results compared with the serial ones); distinct_nontrivial = distinct (format, arguments, "
         "route) tuples whose format has at least one placeholder or whose arity is wrong")
 
 ALPHA = [b"{", b"}", b"a", b" "]
@@ -122,6 +125,31 @@ def _random_jobs(rng, n):
             k = len(LITERALS[idx].split(b"{}")) - 1
             n_args = rng.choice([k, k, k, max(0, k - 1), k + 1])
             yield ("fmt", "L%d" % idx, LITERALS[idx], [("s", rng.choice(POOL)) for _ in range(n_args)])
+
+
+LONGS = [b"p" * 15, b"q" * 16, b"r" * 17, b"s" * 255, b"t" * 256, b"u" * 257, b"v" * 4096, b"w" * 4097,
+         b"{}" * 40, b"y" * 70000]
+
+
+def _scale_jobs(rng, tier):
+    """placeholder counts, argument lengths and literal lengths beyond small fixed-size tables"""
+    seps = [b"", b" ", b"ab", b"{", b"}", b"-" * 20]
+    for k in (8, 9, 15, 16, 17, 18, 31, 32, 33, 64, 65, 100, 255, 256, 257, 1000):
+        for rep in range(2 if tier == "quick" else 6):
+            f = rng.choice(seps) + b"".join(b"{}" + rng.choice(seps[:3] if rep else seps[:1]) for _ in range(k))
+            kk = len(f.split(b"{}")) - 1
+            for n in (kk, kk - 1, kk + 1, 16, 17):
+                args = [rng.choice(POOL + [b"%d" % j]) for j in range(n)]
+                yield ("fmt", "%", f, [("s", a) for a in args])
+    for a in LONGS:
+        for f in (b"{}", b"x{}y{}", b"{}" + b"L" * 300 + b"{}", b"M" * 5000 + b"{}"):
+            kk = len(f.split(b"{}")) - 1
+            yield ("fmt", rng.choice("%a"), f, [("s", a)] * kk)
+        yield ("raise", "n", 1, [a] * 6, [0] * 6)
+        yield ("raisef", b"<{}>", [a])
+    for n in (1000, 70000):
+        yield ("fmt", "%", b"N" * n, [])
+        yield ("fmt", "%", b"N" * n, [("s", b"x")])
 
 
 def _argtok(k, v):
@@ -254,6 +282,8 @@ def _work(arg):
     jobs = [j for i, j in enumerate(_jobs(tier)) if i % nch == chunk]
     rng = random.Random("c08-%d-%d" % (seed, chunk))
     jobs += list(_random_jobs(rng, (30000 if tier == "quick" else 500000) // nch))
+    if chunk % 4 == 0:
+        jobs += list(_scale_jobs(rng, tier))
     res = batchrun.run_ops(exe, [op_line(j) for j in jobs], batch=300, cpu=30)
     for job, r in zip(jobs, res):
         S.n += 1
@@ -265,6 +295,10 @@ def _work(arg):
             S.counters["route:" + ("literal" if job[1].startswith("L") else job[1])] += 1
             if any(b"{}" in (v if isinstance(v, bytes) else b"") for _, v in job[3]):
                 S.counters["argument-contains-placeholder"] += 1
+            if k >= 17:
+                S.counters["scale:placeholders>=%d" % max(x for x in (17, 65, 257) if x <= k)] += 1
+            if any(isinstance(v, bytes) and len(v) >= 255 for _, v in job[3]):
+                S.counters["scale:argument>=255-bytes"] += 1
             if k > 0 or n != k:
                 S.distinct.add(optrun.h64(job[1:4]))
         else:
@@ -295,7 +329,11 @@ def run(tier, replay=None):
     S = optrun.Summary()
     if replay:
         with open(replay) as fh:
-            job = verdict.unhex_json(json.load(fh))["case"]["job"]
+            rcase = verdict.unhex_json(json.load(fh))["case"]
+        if rcase.get("phase") == "concurrent-independent-use":
+            mtindep.replay(run_, rcase, S.counters)
+            return run_.finish(10, 1, RULE)
+        job = rcase["job"]
         if job[0] == "fmt":
             job[3] = [tuple(x) for x in job[3]]
         job = tuple(job)
@@ -309,6 +347,8 @@ def run(tier, replay=None):
         n = nchunks(tier)
         for part in optrun.pmap(_work, [(tier, run_.seed, c, n, exe) for c in range(n)]):
             S.merge(part)
+        # the same functions from 2-16 threads on thread-private arguments: serial results, no data race
+        S.n += mtindep.phase(run_, "format", tier, S.counters)
     for key, what, case in S.viol:
         run_.violation(key, what, case)
     for r in S.inconc[:3]:
@@ -320,7 +360,8 @@ def run(tier, replay=None):
         run_.inconc("operations were skipped without a violation being recorded")
     if not replay:
         for need in ("arity:right", "arity:more", "arity:fewer", "argument-contains-placeholder", "kind:raise",
-                     "kind:raisef", "route:%", "route:a"):
+                     "kind:raisef", "route:%", "route:a", "scale:placeholders>=17", "scale:placeholders>=257",
+                     "scale:argument>=255-bytes"):
             if S.counters.get(need, 0) == 0:
                 run_.inconc("class never exercised: " + need)
     build.prune()
